@@ -93,7 +93,7 @@ def seq_to_int(s, base=10):
     digits are reported Unsupported if feasible)."""
     if isinstance(base, SInt):
         base = ctx().concretize(base.e)
-    if base not in (8, 10):
+    if base not in (8, 10, 16):
         raise Unsupported("int() with base")
     s = lift(s)
     c = ctx()
@@ -108,9 +108,10 @@ def seq_to_int(s, base=10):
         neg = c.decide(es[0] == ord("-"))
         i = 1
     bad = ValueError(f"invalid literal for int() with base {base}")
-    if base == 8:
-        # optional 0o prefix is accepted by int(x, 8)
-        if len(es) - i >= 2 and c.decide(z3.And(es[i] == 48, z3.Or(es[i + 1] == ord("o"), es[i + 1] == ord("O")))):
+    if base in (8, 16):
+        # optional 0o / 0x prefix is accepted by int(x, base)
+        pl = "o" if base == 8 else "x"
+        if len(es) - i >= 2 and c.decide(z3.And(es[i] == 48, z3.Or(es[i + 1] == ord(pl), es[i + 1] == ord(pl.upper())))):
             i += 2
             if len(es) > i and c.decide(es[i] == ord("_")):
                 i += 1
@@ -130,8 +131,19 @@ def seq_to_int(s, base=10):
     val = z3.BitVecVal(0, vw)
     prev_us = True  # underscore not allowed at start
     for k, e in enumerate(digs):
-        if c.decide(z3.And(z3.UGE(e, 48), z3.ULE(e, 47 + base))):
-            val = val * base + z3.ZeroExt(vw - e.size(), e) - 48 if vw >= e.size() else val * base + z3.Extract(vw - 1, 0, e) - 48
+        def _w(x):
+            return z3.ZeroExt(vw - x.size(), x) if vw >= x.size() else z3.Extract(vw - 1, 0, x)
+
+        if c.decide(z3.And(z3.UGE(e, 48), z3.ULE(e, 47 + min(base, 10)))):
+            val = val * base + _w(e) - 48
+            prev_us = False
+            continue
+        if base == 16 and c.decide(z3.And(z3.UGE(e, 97), z3.ULE(e, 102))):
+            val = val * base + _w(e) - 87
+            prev_us = False
+            continue
+        if base == 16 and c.decide(z3.And(z3.UGE(e, 65), z3.ULE(e, 70))):
+            val = val * base + _w(e) - 55
             prev_us = False
             continue
         if c.decide(e == ord("_")):
